@@ -228,6 +228,10 @@ func (c *Connection) writeLoop() {
 	defer close(c.writeLoopDone)
 
 	defer c.conn.Close()
+	// However the write loop ends (also on a write error, when nobody has begun closing yet), the
+	// connection is over: begin closing, so that the handler's context is cancelled and an operation
+	// the read loop is still running can give up. Otherwise finishClosing would wait for it forever.
+	defer c.beginClosing(websocket.CloseInternalServerErr, "write loop ended")
 
 	keepAliveTicker := time.NewTicker(15 * time.Second)
 	defer keepAliveTicker.Stop()
